@@ -41,7 +41,8 @@ def shards(tier):
     for i, (k, s, f, p) in enumerate(COMPS):
         if tier == "quick" and i not in QUICK:
             continue
-        out.append(dict(id=f"{s}-{f}-{p}", kind=k, solver=s, fam=f, pen=p, n=n, cost=n * (3 if k != "scalar" else 1)))
+        nn = n * 4 if f == "QuadraticSVC" else n     # cheap shard, rare event (an extrapolated dual that undershoots 0)
+        out.append(dict(id=f"{s}-{f}-{p}", kind=k, solver=s, fam=f, pen=p, n=nn, cost=nn * (3 if k != "scalar" else 1)))
     out += [dict(id=f"est-{e}", kind="estimator", est=e, n=n // 2, cost=n * 2) for e in ESTIMATORS]
     return out
 
@@ -97,7 +98,12 @@ def strategy(shard):
         return estimator_case(shard["est"])
     s = shard["solver"]
     if shard["kind"] == "scalar":
-        return constrained(P.scalar_case(s, shard["fam"], shard["pen"], sizes=(3, 16, 1, 10)), s)
+        # the SVC dual has one variable per sample: use taller data so that extrapolated duals can undershoot 0
+        sizes = (8, 40, 2, 10) if shard["fam"] == "QuadraticSVC" else (3, 16, 1, 10)
+        base = constrained(P.scalar_case(s, shard["fam"], shard["pen"], sizes=sizes), s)
+        if shard["fam"] == "QuadraticSVC" and s == "AndersonCD":
+            return st.one_of(base, P.svc_extrapolation_case())
+        return base
     return constrained(P.group_case(s, shard["fam"], positive=True), s)
 
 
